@@ -194,13 +194,10 @@ impl<'data> ProguardCache<'data> {
         let mut records = mapping.iter().filter_map(Result::ok).peekable();
         while let Some(record) = records.next() {
             match record {
-                ProguardRecord::Header {
-                    key,
-                    value: Some(file_name),
-                } => {
+                ProguardRecord::Header { key, value } => {
                     if key == "sourceFile" {
-                        current_class.class.file_name_offset =
-                            string_table.insert(file_name) as u32;
+                        current_class.class.file_name_offset = value
+                            .map_or(u32::MAX, |file_name| string_table.insert(file_name) as u32);
                     }
                 }
                 ProguardRecord::Class {
